@@ -110,6 +110,18 @@ def band_failure(c):
             if d > 1.0 / c['u'] + 0.03:
                 return '%s(upsample=%d) on a low-contrast Fourier-shifted disk (radius %s) in frame %s: refined %s is %.4f px from the true centre %s (bound %.4f)' % (
                     name, c['u'], c['radius'], c['shape'], ref[0, 0].tolist(), d, tuple(round(float(t), 4) for t in true), 1.0 / c['u'] + 0.03)
+        # the low-level full-frame routine with the centres output in the narrowest integer dtype that holds the coordinates
+        # (coordinate x upsampling factor does not fit that dtype: no intermediate may be computed in it)
+        import corrlib as cl
+        for dtc in (np.int8, np.uint8, np.int16, np.int64):
+            if max(c['shape']) + cs > np.iinfo(dtc).max:
+                continue
+            outs = (np.full((1, 2), 0, dtype=dtc), np.full((1, 2), np.nan, dtype=np.float32), np.full((1,), np.nan, dtype=np.float32), np.full((1,), np.nan, dtype=np.float32))
+            cl.run_full(p2, frame2[0], [st], upsample=c['u'], outs=outs)
+            d = float(np.abs(outs[1][0].astype(np.float64) - np.array(true)).max())
+            if d > 1.0 / c['u'] + 0.03:
+                return 'process_frame_full(upsample=%d, out_centers dtype %s) on a low-contrast Fourier-shifted disk (radius %s) in frame %s: refined %s is %.4f px from the true centre %s (bound %.4f)' % (
+                    c['u'], np.dtype(dtc).name, c['radius'], c['shape'], outs[1][0].tolist(), d, tuple(round(float(t), 4) for t in true), 1.0 / c['u'] + 0.03)
     return None
 
 
